@@ -76,7 +76,7 @@ theorem netinv_react {e : Env} {ms : MNet} {as : State} (inv : NetInv e ms as) (
     (hnet0 : ∀ x, x ∈ net0 → x ∈ ms.net) (i : Nat) (ev : Event) (inp : Inp)
     (hp : Prog e i as (syncChain e fuel (handle e (w0 ms i inp) inp.gts ev))) :
     ∃ as', NetInv e (react e { ms with net := net0 } i ev inp) as' ∧
-      ∀ b s, Out.block b s ∈ (reaction e { ms with net := net0 } i ev inp).2.1 → ∀ t ∈ s, t.2 = true := by
+      ∀ b s, Out.block b s ∈ (reaction e { ms with net := net0 } i ev inp).2.1 → SigsOK e s := by
   obtain ⟨as', x, g⟩ := hp
   refine ⟨as', ?_, ?_⟩
   · rw [react_eq]
@@ -125,10 +125,10 @@ def evOuts (e : Env) (ms : MNet) (inp : Inp) : NEv → List Out
   | _ => []
 
 /-- every event of the network is matched by an extension of the abstract state, and every block a machine
-hands to its ledger in the event carries signatures of that block only -/
+hands to its ledger in the event carries exactly M signatures, of that block only, in validator order -/
 theorem netinv_step {e : Env} {ms : MNet} {as : State} (inv : NetInv e ms as) (ev : NEv) (inp : Inp)
     (hen : NEnabled e ms inp ev) : ∃ as', NetInv e (napply e ms inp ev) as' ∧
-      ∀ b s, Out.block b s ∈ evOuts e ms inp ev → ∀ t ∈ s, t.2 = true := by
+      ∀ b s, Out.block b s ∈ evOuts e ms inp ev → SigsOK e s := by
   cases ev with
   | drop to m =>
     exact ⟨as, ⟨inv.g, inv.rn, fun t pl h => inv.net t pl (List.mem_of_mem_erase h)⟩, fun b s h => by simp [evOuts] at h⟩
